@@ -140,7 +140,7 @@ pub fn run(ctx: &mut Ctx) -> Step {
     let start = gen::generate(&mut ctx.tape, g);
     set_board(ctx, &mut a, &start)?;
     set_board(ctx, &mut b, &start)?;
-    let extreme = ctx.tier == Tier::Thorough && ctx.tape.choose(40) == 0;
+    let extreme = ctx.tape.choose(if ctx.tier == Tier::Thorough { 40 } else { 400 }) == 1;
     let calls = if extreme { 1200 } else { *ctx.tape.pick(&[20u32, 60, 150, 400]) };
     let mut last: [Option<Mv>; 2] = [None, None];
     let mut trace: Vec<String> = Vec::new();
@@ -164,7 +164,16 @@ pub fn run(ctx: &mut Ctx) -> Step {
             0 | 1 | 2 | 3 | 4 | 5 | 6 | 7 => {
                 // a player submits a legal move to both replicas
                 let side = a.model.stm as usize;
-                let m = choose_reversible(ctx, &a.model, last[side], &la);
+                let m = if extreme {
+                    // a strict shuttle: undo the own previous move whenever possible, so that
+                    // one position recurs every four plies for the whole session
+                    match last[side] {
+                        Some(prev) if la.contains(&Mv::new(prev.to, prev.from, 0)) => Mv::new(prev.to, prev.from, 0),
+                        _ => choose_reversible(ctx, &a.model, None, &la),
+                    }
+                } else {
+                    choose_reversible(ctx, &a.model, last[side], &la)
+                };
                 last[side] = Some(m);
                 trace.push(m.text());
                 let (_, fa) = submit(ctx, &mut a, &mut variants, m, "none")?;
